@@ -350,7 +350,8 @@ pub fn gen_robot(w: &mut Rng, k: &CellKnobs) -> CellSpec {
         env: vec![],
         safety: SafetySpec::touch(Mode::All),
         ctor: k.ctor,
-        limits_ctor: *w.pick(&[0u8, 0, 0, 1, 2]),
+        limits_ctor: *w.pick(&[0u8, 0, 0, 1, 2, 3]),
+        parallelogram: None,
     }
 }
 
